@@ -362,6 +362,42 @@ pub fn check_frequency(code: &[u8], interval: usize) -> Result<Vec<(String, u64,
     Ok(report)
 }
 
+/// Main-loop iterations the VM needs for a loop-free, JUMP-free program: the nodes of the trie of reference paths,
+/// each weighted by the instruction's length in bytes (the VM steps through push-data filler entries).
+pub fn ref_vm_work(code: &[u8], x: &crate::ref_evm::Exploration) -> Option<u64> {
+    let kinds = crate::c10::ref_kinds(code);
+    let has_jump = code.iter().zip(&kinds).any(|(b, k)| *k && *b == 0x56);
+    if has_jump || x.loops || x.capped {
+        return None;
+    }
+    let mut trie: BTreeSet<Vec<u32>> = BTreeSet::new();
+    for pth in &x.paths {
+        let mut prefix = Vec::new();
+        let mut cursor = 0;
+        for off in pth.executed.iter() {
+            prefix.push(*off);
+            trie.insert(prefix.clone());
+            if code[*off as usize] == 0x57 && cursor < pth.branches.len() {
+                prefix.push(1_000_000 + pth.branches[cursor] as u32);
+                cursor += 1;
+            }
+        }
+    }
+    Some(
+        trie.iter()
+            .map(|k| {
+                let off = *k.last().unwrap() as usize;
+                let b = code[off];
+                if (0x60..=0x7f).contains(&b) {
+                    1 + ((b - 0x5f) as usize).min(code.len() - off - 1) as u64
+                } else {
+                    1
+                }
+            })
+            .sum(),
+    )
+}
+
 /// Number of 32-byte words each copy-type instruction with a literal size copies (straight-line programs only).
 fn copy_words(code: &[u8]) -> Vec<u64> {
     let limit = sle::vm::Config::default().single_memory_operation_size_limit as u64;
